@@ -267,7 +267,9 @@ Section Dev.
                 let d3 := match pi_pre pin with
                           | None => d2
                           | Some (kept, reply) =>
-                              upd_sdev (fun s => set_to (sd_to s ++ reply)
+                              (* _telnet_sendopt: cbuf_write into dev->to (CBUF_WRAP_MANY: the oldest unsent bytes are overwritten
+                                 once the buffer holds MAX_DEV_BUF bytes) *)
+                              upd_sdev (fun s => set_to (lastn (Z.to_nat MAX_DEV_BUF) (sd_to s ++ reply))
                                                    (set_from (firstn (length (sd_from s) - length b) (sd_from s) ++ kept) s)) d2
                           end in
                 Ok (false, d3, e1 ++ [EvRead (length b)])
